@@ -29,6 +29,7 @@ func init() {
 }
 
 func runC20(w *World, r *Report) {
+	hrFailsafeReactions(w, r, "R7")
 	run := w.Fn(pkgFailsafe, "StateChangeWatcher.run")
 	if run == nil {
 		r.Undec("R1", "run", token.NoPos, "StateChangeWatcher.run not found")
